@@ -17,7 +17,9 @@ RULE = ("protocol definitions are generated as trees (programs) and instantiated
         "== v; re-encoding a decoding of the octets with randomised spare bits/octets gives the canonical octets; with "
         "check_len=False and trailing junk exactly len(encoding) octets are consumed; every cut before the flexible tail, "
         "trailing octets under check_len, a flipped bit in a fixed-value bit-field -> DecodeError; out-of-range integer, "
-        "wrong-size buffer -> EncodeError; nothing else escapes; an over-wide bit-field value is truncated to its width. "
+        "wrong-size buffer -> EncodeError; nothing else escapes; an over-wide bit-field value is truncated to its width; the same "
+        "Envelope object encoded again after a validity-preserving change made in place at the deepest nesting level (top-level dict "
+        "untouched where possible) gives the layout of the current content. "
         "Non-trivial: definition with a multi-octet or LSB-first BitFieldSet and a nesting or callback-driven field.")
 LEVEL = "exploration"
 ASSUMPTIONS = ["only compositions demonstrated by test_codec.py / trxd_proto.py: flexible fields at the tail only, bit-field "
@@ -378,6 +380,35 @@ def classify(fields, acc=None, depth=0):
     return acc
 
 
+def collect_mutations(fields, targets, depth, out):
+    """validity-preserving in-place changes of a value assignment: (nesting depth, closure applying it to every dict in targets)"""
+    vals = targets[0]
+    refd = set(x.get("pres") for x in fields) | set(x.get("lenfrom") for x in fields)
+    for f in fields:
+        k = f["k"]
+        if k == "bits":
+            for b in f["fields"]:
+                if b.get("name") is not None and b.get("val") is None and b["name"] not in refd and b["name"] in vals:
+                    out.append((depth, lambda n=b["name"], ts=targets: [t.__setitem__(n, t[n] ^ 1) for t in ts]))
+            continue
+        if not codec_ref.present(f, vals) or f.get("name") not in vals:
+            continue
+        name = f["name"]
+        if k == "buf" and len(vals[name]) > 0:
+            out.append((depth, lambda n=name, ts=targets: [t.__setitem__(n, bytes(x ^ 0xff for x in t[n])) for t in ts]))
+        elif k == "int" and name not in refd:
+            def chg(n=name, ts=targets, f=f):
+                for t in ts:
+                    raw = (t[n] - f["offset"]) // f["mult"]
+                    t[n] = (raw ^ 1) * f["mult"] + f["offset"]
+            out.append((depth, chg))
+        elif k == "env":
+            collect_mutations(f["fields"], [t[name] for t in targets], depth + 1, out)
+        elif k == "seq":
+            for i in range(len(vals[name])):
+                collect_mutations(f["item"], [t[name][i] for t in targets], depth + 1, out)
+
+
 def decode(env, data):
     n = env.from_bytes(data)
     return n, dict(env.c)
@@ -518,7 +549,31 @@ def oracle(case):
                 if bytes(wide) != ref:
                     raise Violation("c16:over-wide-bitfield-leaks", "field %s (%d bits): %s instead of %s" % (b["name"], b["bl"], bytes(wide).hex(), ref.hex()))
                 break
+    # 9. the same Envelope object encoded again after its content was changed in place (preferably deep inside a nested
+    #    envelope / sequence item, with the top-level dict untouched): the second encoding is that of the CURRENT content
+    cands = []
+    model = copy.deepcopy(vals)
+    env9 = build_env(fields)
+    env9.c = copy.deepcopy(vals)
+    collect_mutations(fields, [model, env9.c], 0, cands)
+    life = None
+    if cands:
+        deepest = max(d for d, _ in cands)
+        pool = [fn for d, fn in cands if d == deepest]
+        try:
+            first = bytes(env9.to_bytes())
+            pool[case["pick"] % len(pool)]()
+            second = bytes(env9.to_bytes())
+        except codec.EncodeError as e:
+            raise Violation("c16:life:encodable-refused", "%r" % (e,))
+        want = bytes(codec_ref.encode(fields, model).octets)
+        if first != ref or second != want:
+            raise Violation("c16:encoding-differs-from-layout:after-in-place-change", "object encoded, content changed in place at nesting depth %d, "
+                            "encoded again: %s, layout of the current content %s" % (deepest, second.hex()[:80], want.hex()[:80]))
+        life = "in-place-change/depth%d" % min(deepest, 2)
     cl = classify(fields)
+    if life:
+        cl = set(cl) | {life}
     nt = ("bits-multi-octet" in cl or "bits-lsb-first" in cl) and bool(cl & {"nested", "callback", "sequence"})
     return (sorted(cl), nt, {"fields": fields, "octets": ref.hex()})
 
